@@ -693,6 +693,8 @@ static vector<Part> &parts()
     p.push_back({"%05d", {I(-42)}, false});
     p.push_back({"%5s", {S("")}, false});
     p.push_back({"%-3c", {I('q')}, false});
+    p.push_back({"%c", {I(0)}, false});   // the NUL character is an output character like any other: it must be stored and counted
+    p.push_back({"%3c", {I(0x100)}, false}); // converted to unsigned char: NUL again, padded
     p.push_back({"%hhx", {I(-1)}, false});
     p.push_back({"%lo", {L(1LL << 40)}, false});
     p.push_back({"%i", {I(INT_MIN)}, false});
